@@ -12,6 +12,7 @@ pub mod c12;
 pub mod c13;
 pub mod c14;
 pub mod c15;
+pub mod c16;
 pub mod c18;
 pub mod c19;
 pub mod c20;
@@ -29,6 +30,8 @@ pub fn run(ctx: &Ctx) -> ! {
         "C04" => e2::main(ctx, e2::Prop::C04),
         "C05" => e2::main(ctx, e2::Prop::C05),
         "C06" => e2::main(ctx, e2::Prop::C06),
+        "C16" => c16::main(ctx, false),
+        "C17" => c16::main(ctx, true),
         "C18" => e2::main(ctx, e2::Prop::C18),
         "C19" => c19::main(ctx),
         "C20" => c20::main(ctx),
@@ -51,6 +54,8 @@ pub fn replay(ctx: &Ctx, v: &serde_json::Value, witness: &str) {
         "C04" => e2::replay(ctx, e2::Prop::C04, v),
         "C05" => e2::replay(ctx, e2::Prop::C05, v),
         "C06" => e2::replay(ctx, e2::Prop::C06, v),
+        "C16" => c16::replay(ctx, v, false),
+        "C17" => c16::replay(ctx, v, true),
         "C18" => e2::replay(ctx, e2::Prop::C18, v),
         "C19" => c19::replay(ctx, v),
         "C20" => e2::replay(ctx, e2::Prop::C20, v),
